@@ -128,6 +128,19 @@ Theorem report_value_total_or_mean : forall idx vals,
 Proof. exact shown_value_lemma. Qed.
 Print Assumptions report_value_total_or_mean.
 
+(* Java legacy formats carry names, so the driver applies the legacy drop/keep tables (Prune) before showing
+   anything: a record whose frames are ALL allocator / lock frames keeps its whole stack (there is no user
+   frame to prune beneath), wherever it stands in the document; and pruning only removes leaf-side frames *)
+Theorem java_all_droppable_stack_kept : forall droppable names,
+  forallb droppable names = true -> prune_stack droppable names = names.
+Proof. exact prune_stack_all_droppable_lemma. Qed.
+Print Assumptions java_all_droppable_stack_kept.
+
+Theorem java_prune_keeps_root_side : forall droppable rl found acc,
+  exists tail, (rev acc ++ rl)%list = (prune_root_first droppable rl found acc ++ tail)%list.
+Proof. exact prune_root_first_prefix. Qed.
+Print Assumptions java_prune_keeps_root_side.
+
 (* Full statements of which the theorem above is the proved part (whole documents, every format);
    the remaining distance is covered on every run by the correspondence check: the parser model,
    the real parser and convert_* are compared on every generated document. *)
